@@ -282,8 +282,11 @@ def reader_summaries(mir, st_, eofd):
     P[r'<BlockRecord as TryFrom<&Vec<u8>>>::try_from'] = try_from
     def extend(se, env, pc, r, data):
         cur = se.deref(env, r)
+        if isinstance(cur, list) and not cur: cur = {'segs': [], 'len': bv(0)}          # an emptied buffer
+        if isinstance(data, list) and not data: data = {'segs': [], 'len': bv(0)}
         se.store(env, r, {'segs': cur['segs'] + data['segs'], 'len': cur['len'] + data['len']}); return lib.one(env, ())
     P[r'<Vec<u8> as Extend<u8>>::extend'] = extend
+    P[r'Vec::clear'] = lambda se, env, pc, r: (se.store(env, r, {'segs': [], 'len': bv(0)}), lib.one(env, ()))[1]
     P[r'must_use'] = lib.ident
     P[r'format'] = lambda se, env, pc, *a: lib.one(env, {'str': '<formatted>'})
     return S
